@@ -20,8 +20,8 @@ VERIF = Path(__file__).resolve().parent.parent
 REPO = Path(os.environ.get("VERIF_REPO", "/repo"))
 SPEC = VERIF / "spec"
 HARNESS = VERIF / "harness"
-BUILD = VERIF / ".build"
-EVID = VERIF / "evidence"
+BUILD = Path(os.environ.get("VERIF_BUILD", VERIF / ".build"))       # overridden by the self-test, which runs beside the registered checks
+EVID = Path(os.environ.get("VERIF_EVIDENCE", VERIF / "evidence"))
 REPLAY = EVID / "replay"
 JAR = "/opt/veriftools/tla/tla2tools.jar:/opt/veriftools/tla/CommunityModules-deps.jar"
 
